@@ -162,6 +162,17 @@ func (changes *Changes) GetDSC() (*DSC, error) {
 	return nil, fmt.Errorf("No .dsc file in .changes")
 }
 
+// Make sure every listed file is a plain name, i.e. lives next to the
+// control file, before anything is copied, moved or removed.
+func (changes *Changes) checkFiles() error {
+	for _, file := range changes.Files {
+		if err := internal.CheckFilename(file.Filename); err != nil {
+			return err
+		}
+	}
+	return nil
+}
+
 // Copy the .changes file and all referenced files to the directory
 // listed by the dest argument. This function will error out if the dest
 // argument is not a directory, or if there is an IO operation in transfer.
@@ -172,6 +183,9 @@ func (changes *Changes) GetDSC() (*DSC, error) {
 func (changes *Changes) Copy(dest string) error {
 	if file, err := os.Stat(dest); err == nil && !file.IsDir() {
 		return fmt.Errorf("Attempting to move .changes to a non-directory")
+	}
+	if err := changes.checkFiles(); err != nil {
+		return err
 	}
 
 	for _, file := range changes.AbsFiles() {
@@ -199,6 +213,9 @@ func (changes *Changes) Move(dest string) error {
 	if file, err := os.Stat(dest); err == nil && !file.IsDir() {
 		return fmt.Errorf("Attempting to move .changes to a non-directory")
 	}
+	if err := changes.checkFiles(); err != nil {
+		return err
+	}
 
 	for _, file := range changes.AbsFiles() {
 		dirname := filepath.Base(file.Filename)
@@ -218,6 +235,9 @@ func (changes *Changes) Move(dest string) error {
 // always remove the .changes last, in the event there are filesystem i/o errors
 // on removing associated files.
 func (changes *Changes) Remove() error {
+	if err := changes.checkFiles(); err != nil {
+		return err
+	}
 	for _, file := range changes.AbsFiles() {
 		err := os.Remove(file.Filename)
 		if err != nil {
